@@ -38,6 +38,10 @@ def GenMember.sig? : GenMember → Option Sig
   | .fn _ s _ => some s
   | .raw _ => none
 
+def GenMember.isFn : GenMember → Bool
+  | .fn _ _ _ => true
+  | .raw _ => false
+
 def GenMember.attrs : GenMember → List Attr
   | .fn a _ _ => a
   | .raw _ => []
@@ -460,11 +464,17 @@ def P_C18 (item : Item) (view : View) : Bool :=
         m.attrs.all (fun a => src.contains a && a.subKind == .asyncTrait) &&
         memberAttrsOk (mirroredAttrs item) m.members)
   | .trait t =>
-      match mainImpl? view with
-      | some m =>
-          zipAll (fun (srcFn : TraitFnItem) g => g.attrs == srcFn.attrs)
-            t.fns m.members
-      | none => false
+      (match mainImpl? view with
+       | some m =>
+           zipAll (fun (srcFn : TraitFnItem) g => g.attrs == srcFn.attrs)
+             t.fns m.members
+       | none => false) &&
+      -- every generated trait that declares methods — the re-emitted trait and the delegation-target trait an
+      -- impl block is written against — mirrors the attributes of the methods too (a `cfg`-disabled method
+      -- must be disabled on all of them, or the impl block and its trait disagree about what exists)
+      (traitsOf view.items).all (fun g =>
+        let ms := g.members.filter GenMember.isFn
+        ms.isEmpty || zipAll (fun (srcFn : TraitFnItem) m => m.attrs == srcFn.attrs) t.fns ms)
 
 /-! ## syn-stable inputs
 
@@ -973,6 +983,24 @@ def F_C09_attrs (item : Item) (view : View) : Bool :=
   match item, mainTrait? view with
   | .trait t, some g => t.attrs.any (fun a => !g.attrs.contains a)
   | _, _ => false
+
+/-- `#[cfg_attr(pred, .. cfg(..) ..)]`: a `cfg` that only exists in some builds -/
+def wrapsCfg (a : Attr) : Bool :=
+  a.inner.head? == some (.ident "cfg_attr") && (TT.flattenList a.inner.tail).contains (.ident "cfg")
+
+def isCfgAttrAttr (a : Attr) : Bool := a.inner.head? == some (.ident "cfg_attr")
+
+/-- recorded defect `C18.cfgattr`: a function of a module / impl block is disabled through
+    `cfg_attr(pred, cfg(..))`, which is not mirrored: in a build where `pred` holds and the wrapped
+    predicate does not, the trait method and the delegating method are left behind -/
+def F_C18_cfgattr (item : Item) (view : View) : Bool :=
+  match item with
+  | .mod_ _ | .impl _ =>
+      (match mainImpl? view with
+       | some im =>
+           (item.sourceFns.zip im.members).any (fun fm => fm.1.attrs.any wrapsCfg && !fm.2.attrs.any isCfgAttrAttr)
+       | none => false)
+  | _ => false
 
 def F_C09_unsafe (item : Item) : Bool :=
   match item with | .trait t => t.unsafe_ || t.auto_ | _ => false
